@@ -139,13 +139,21 @@ def py_edges(edges, nested):
     return e
 
 
-def make_values(flow, dim, nested):
+def make_values(flow, dim, nested, pairs=None):
     vals = []
     for i, v in enumerate(flow):
         x = list(v["x"])
         coord = x[0] if (dim == 1 and not nested) else tuple(x)
         data = (i + 1, coord)
-        vals.append((data, {"src": i + 1}) if v["h"] else data)
+        if v["h"]:
+            val = (data, {"src": i + 1})
+        elif v.get("p"):
+            val = (data, {})               # a pair with an empty context of its own
+        else:
+            val = data                      # a bare value
+        if pairs is not None and isinstance(val, tuple) and len(val) == 2 and isinstance(val[1], dict):
+            val = pairs(*val)               # e.g. a namedtuple (a tuple subclass) with a dict subclass
+        vals.append(val)
     return vals
 
 
@@ -223,3 +231,12 @@ def rank_abstract(edges, coords):
         redges.append([m[x] for x in e])
     rcoords = [[maps[d][c[d]] for d in range(len(edges))] for c in coords]
     return redges, rcoords
+
+
+Pair = __import__("collections").namedtuple("Pair", "data context")
+
+
+def duck_pair(data, context):
+    """The same (data, context) value as a tuple subclass holding a dict subclass."""
+    import collections
+    return Pair(data, collections.OrderedDict(context))
